@@ -258,6 +258,10 @@ def fam_boundary(rng, tier, i):
     s += ["read_all i%d i%d" % (tB - 5, tC + 2), "read_first_n 3 i%d u" % (tB - 1), "read_n 7 u u"]
     s += ["close", "fs_rm index:b", open_line("b"), "len", "range", "read_all u u",
           "read_all i%d u" % (tC - 1),
+          # through the rebuilt index: reads, counts, resampling reads and pages anchored at the sections behind the buffer ends
+          "read_all i%d i%d" % (tB, tB + 3), "read_n 4 i%d u" % tB, "read_n 3 i%d u" % tC, "n_lines i%d i%d" % (tB, tB + 3), "n_lines i%d u" % tC,
+          "read_first_n 2 i%d u" % tB, "read_first_n 2 e%d u" % (tB + 1), "read_first_n 3 e%d u" % (tB - 1), "read_first_n 2 e%d u" % tC,
+          "read_first_n 2 e%d u" % (tC - 1), "read_all e%d i%d" % (tC, tC + 6),
           # an append right after the last line: section or not depends on the last full timestamp the rebuilt index reports
           "push %d %s" % (lastC + 1, hexb(payload(rng, p))), "push %d %s" % (lastC + 65000, hexb(payload(rng, p))),
           "push %d %s" % (tC + 10**6, hexb(payload(rng, p))), "read_all i%d u" % tC, "close",
@@ -374,7 +378,10 @@ def fam_interleave(rng, tier, i):
     s += ["read_all u u", "close", "dump"]
     return {"family": "interleave", "lines": s, "tags": {"p%d" % p}}
 
-def fam_boundary_reader(rng, tier, i):
+def fam_boundary_reader_c(rng, tier, i):
+    return fam_boundary_reader(rng, tier, i, caches=(rng.choice([100, 1000]),))
+
+def fam_boundary_reader(rng, tier, i, caches=()):
     """the reader's own boundaries: its first buffer starts after the first section, so a section
     starting `off` slots around slot K + k*chunk_slots is split by the k-th buffer end (C01)"""
     combos = [(p, off) for p in (0, 1, 2, 3, 4, 9) for off in range(-K(p) - 1, 2)]
@@ -384,15 +391,18 @@ def fam_boundary_reader(rng, tier, i):
     cs = (((16384 + L - 1) // L) * L) // L
     base = rng.choice([7, 2**40 + 1, 2**56 + 3])
     nA = cs + off1          # lines after section A until section B starts: slot index Kp + nA = Kp + cs + off1
-    s = [new_line("v", p), "pushseq %d 1 %d %d" % (base, nA, rng.randrange(256))]
+    s = [new_line("v", p, b"", caches), "pushseq %d 1 %d %d" % (base, nA, rng.randrange(256))]
     tB = base + nA + 65535 + rng.randrange(0, 1000)
     off2 = rng.randrange(-Kp - 1, 2)
     nB = (cs + off2) - off1 - Kp
     s.append("pushseq %d 1 %d %d" % (tB, nB, rng.randrange(256)))
     tC = tB + nB + 65535 + rng.randrange(0, 1000)
     s.append("pushseq %d 2 %d %d" % (tC, rng.randrange(1, 10), rng.randrange(256)))
-    s += ["read_all u u", "len", "read_n 5 u u", "read_first_n %d u u" % (nA + 2), "close", open_line("v"), "read_all u u", "last_line", "close"]
-    return {"family": "boundary_reader", "lines": s, "tags": {"p%d" % p, "big"}}
+    rn = ["read_n %d u u" % rng.choice([700, 2000, 6000]), "read_n 5 u u"]
+    # (a call that panics costs the handle: with cache levels the resampling reads go first, without them the full read)
+    s += (rn + ["read_all u u", "n_lines u u", "len"] if caches else ["read_all u u", "n_lines u u", "len"] + rn) + ["read_first_n %d u u" % (nA + 2), "close",
+          open_line("v", "any", "any", caches), "read_all u u", "last_line", "close"]
+    return {"family": "boundary_reader_c" if caches else "boundary_reader", "lines": s, "tags": {"p%d" % p, "big"} | ({"caches"} if caches else set())}
 
 def fam_sparse_boundary(rng, tier, i):
     """sparse series (every line its own section) crossing two buffer boundaries: every
@@ -403,9 +413,11 @@ def fam_sparse_boundary(rng, tier, i):
     n = (2 * 16384) // per + rng.randrange(2, 40)
     base = rng.choice([5, 2**40, U64 - 1 - n * 70001 - 5])
     step = rng.choice([65535, 70000, 65536])
-    s = [new_line("q", p), "pushseq %d %d %d %d" % (base, step, n, rng.randrange(256)),
-         "len", "read_all u u", "close", "fs_rm index:q", open_line("q"), "len", "read_all u u", "last_line", "close"]
-    return {"family": "sparse_boundary", "lines": s, "tags": {"p%d" % p, "big"}}
+    cq = (2,) if i % 2 else ()
+    s = [new_line("q", p, b"", cq), "pushseq %d %d %d %d" % (base, step, n, rng.randrange(256)),
+         "len", "read_all u u", "read_n %d u u" % rng.choice([50, 400, n]), "read_n %d u u" % (n // 4), "close", "fs_rm index:q", open_line("q", "any", "any", cq), "len", "read_all u u",
+         "read_n %d i%d u" % (rng.choice([3, 40]), base + step * (n // 2)), "read_first_n 3 e%d u" % (base + step * (n // 2)), "last_line", "close"]
+    return {"family": "sparse_boundary", "lines": s, "tags": {"p%d" % p, "big"} | ({"caches"} if cq else set())}
 
 def fam_ranges(rng, tier, i):
     """range reads, first-n, counts, paging over critical bounds (C02 C13 C14)"""
@@ -428,9 +440,13 @@ def fam_ranges(rng, tier, i):
         # the last line sits exactly at 2^64-1: bounds at the top of the range meet a stored line
         d = U64 - 1 - lines[-1][0]
         lines = [(t + d, pay) for t, pay in lines]
+    if (not edge) and (not at_max) and i % 8 == 5 and lines[0][0] > 0:
+        lines = [(0, payload(rng, p))] + lines              # the first line at time 0: the smallest bound meets a stored line
     tss = [t for t, _ in lines]
     n = len(tss)
     s = [new_line("r", p)] + push_lines(lines)
+    if tss[0] == 0:
+        s += ["read_all i0 i0", "n_lines i0 i0", "read_all u i%d" % tss[min(1, n - 1)], "n_lines u i%d" % tss[min(1, n - 1)], "read_first_n 1 u u", "read_all u e0", "n_lines u e0"]
     if at_max:
         m = U64 - 1
         s += ["read_all e%d u" % m, "read_all e%d i%d" % (m, m), "read_first_n 1 e%d u" % m, "n_lines e%d u" % m,
@@ -447,6 +463,8 @@ def fam_ranges(rng, tier, i):
             s.append("read_first_n %d %s %s" % (rng.choice([1, 1, 2, 3, n, n + 1]), lo, hi))
         else:
             s.append("n_lines %s %s" % (lo, hi))
+        if k >= 0.45 and (len(s) % 2 == 0):
+            s.append("read_all %s %s" % (lo, hi))       # what a full read of the same range returns (C13 and C14 are stated against it)
     if n >= 2 and tss[-1] + 2 < U64 and rng.random() < 0.25:
         # the handle of a reopened series, a read that stops before the end of the data, an append, range reads again:
         # the appended line lands behind the others whatever the reads did before
@@ -510,6 +528,13 @@ def fam_refuse(rng, tier, i):
             s += ["close", open_line("f"), "push %d %s" % (t, hexb(payload(rng, p)))]
         s += rng.sample(["len", "range", "read_all u u", "last_line"], 2)
     s += ["read_all u u", "len", "range"]
+    if i % 3 == 0 and len(cur) >= 2 and cur[-1] + 2 < U64:
+        # a reopened handle serves a read that ends before the last line, then an append: it lands behind the last line, and
+        # after the next reopen its timestamp is refused like any other that is not newer
+        t1 = cur[-1] + rng.choice([1, 70000])
+        if t1 < U64:
+            s += ["close", open_line("f"), "read_all u i%d" % cur[0], "push %d %s" % (t1, hexb(payload(rng, p))), "range", "close", open_line("f"),
+                  "push %d %s" % (t1, hexb(payload(rng, p))), "push %d %s" % (cur[-1], hexb(payload(rng, p))), "range", "len", "read_all u u"]
     return {"family": "refuse", "lines": s, "tags": {"p%d" % p}}
 
 def fam_reopen(rng, tier, i, marker=False):
@@ -792,6 +817,9 @@ def fam_caches(rng, tier, i, reopen=False, faults=False):
         else:
             s.append("fs_cut data:c %d" % rng.randrange(1, 4 * (p + 2)))
         s.append(open_line("c", "any", "any", Bs))
+        if f >= 0.8 and i % 2 == 0:
+            # the application appends again what the crash took from the source (the levels may still hold means of those lines)
+            s += push_lines(lines[-6:]) + ["len", "range"]
     s += ["read_all u u", "len"]
     for lo, hi in bounds_critical(rng, tss, 5):
         s.append("read_n %d %s %s" % (rng.choice([1, 2, 3, 5, max(1, n // 2), n, 2 * n]), lo, hi))
@@ -879,6 +907,19 @@ def fam_caches_faults(rng, tier, i):
              "pushseq %d %d %d %d" % (base + step * B * m + 5, step, 2 * B, rng.randrange(256)), "read_n 3 u u", "close",
              open_line("c", "any", "any", Bs), "len", "close", "dump"]
         return {"family": "caches_faults", "lines": s, "tags": {"p%d" % p, "caches", "level_with_torn_source"}}
+    if i % 6 == 5:
+        p = rng.choice([0, 1, 2, 4])
+        B = rng.choice([2, 3, 4])
+        L = p + 2
+        n = B * rng.choice([3, 4, 6])
+        base = rng.choice([10, 1000, 2**40])
+        lines = [(base + 3 * k2, payload(rng, p)) for k2 in range(n)]
+        lost = B + rng.randrange(0, B)
+        Bs = (B,) if rng.random() < 0.6 else tuple(sorted({B, rng.choice([1, 2, 10])}))
+        s = [new_line("c", p, b"", Bs)] + push_lines(lines) + ["close", "fs_cut data:c %d" % (lost * L - rng.choice([0, 0, 1])),
+             open_line("c", "any", "any", Bs), "len"] + push_lines(lines[-lost - 1:]) + ["len", "range", "read_all u u", "read_n 2 u u",
+             "push %d %s" % (lines[-1][0] + 5, hexb(payload(rng, p))), "close", open_line("c", "any", "any", Bs), "len", "close", "dump"]
+        return {"family": "caches_faults", "lines": s, "tags": {"p%d" % p, "caches", "level_ahead_repush"}}
     return fam_caches(rng, tier, i, reopen=True, faults=True)
 
 def fam_cache_sections(rng, tier, i):
@@ -952,6 +993,12 @@ def fam_contract(rng, tier, i):
          open_line("m", p, hdr, ext=1), "len", "close", open_line("m", "any", "any", ext=0), "payload_size", "close",
          open_line("m", q, "any"), open_line("m", p, hdr2), open_line("m", "any", hdr + b"\x01"), open_line("m", "any", b""), open_line("m", p, hdr[:-1] if hdr else b"\x00"),
          open_line("zz", "any", "any", ext=1), "dump"]
+    # both header setters called on one builder, in either order: the last call decides what is demanded
+    pq = ["any", p][i % 2]
+    s += ["open m p=%s hdr=any>%s caches=- cb=none ext=0" % (pq, hexb(hdr2)), "open m p=%s hdr=any>%s caches=- cb=none ext=%d" % (pq, hexb(hdr), i % 2), "len", "close",
+          "open m p=%s hdr=%s>any caches=- cb=none ext=0" % (pq, hexb(hdr2)), "len", "close", "dump",
+          # a builder first set up to create, then told to take the payload size from the file: it can only open
+          "open m p=any! hdr=any caches=- cb=none ext=%d" % ((i // 2) % 2), "len", "close", "open zz p=any! hdr=any caches=- cb=none ext=0", "dump"]
     r = rng.random()
     if r < 0.3:
         # header just below / at / above the maximum the 16 bit length admits
@@ -1129,7 +1176,7 @@ def fam_totality(rng, tier, i):
     return {"family": "totality", "lines": s, "tags": {"p%d" % p}}
 
 FAMILIES = {f.__name__[4:]: f for f in [
-    fam_roundtrip, fam_boundary, fam_boundary2, fam_lastmeta, fam_interleave, fam_boundary_reader, fam_bigsection, fam_sparse_boundary, fam_ranges, fam_refuse, fam_reopen, fam_reopen_marker,
+    fam_roundtrip, fam_boundary, fam_boundary2, fam_lastmeta, fam_interleave, fam_boundary_reader, fam_boundary_reader_c, fam_bigsection, fam_sparse_boundary, fam_ranges, fam_refuse, fam_reopen, fam_reopen_marker,
     fam_bigline, fam_torn, fam_index_states, fam_format, fam_assets, fam_caches, fam_caches_reopen,
     fam_caches_faults, fam_caches_rebuild, fam_cache_sections, fam_resample, fam_contract, fam_corrupt, fam_totality]}
 
